@@ -11,7 +11,7 @@ import (
 )
 
 func AcquireLock(c gocoro.Coroutine[*t_aio.Submission, *t_aio.Completion, any], r *t_api.Request) (*t_api.Response, error) {
-	expiresAt := c.Time() + r.AcquireLock.Ttl
+	expiresAt := util.AddSat(c.Time(), r.AcquireLock.Ttl)
 
 	// Try to acquire lock, update lock if already acquired by the same execution id
 	completion, err := gocoro.YieldAndAwait(c, &t_aio.Submission{
